@@ -203,6 +203,7 @@ def do_check(K, prop, seed, tier, args, repo):
     agg = K.run_batch(prop, seed, tier, budget['runs'], budget['wall'], args.workers, chunk, tags, args.first)
 
     # 3. failures: shrink, classify, write replay, verify in a fresh interpreter
+    harness_problems = []
     by_clause = {}
     for f in sorted(agg['failures']):
         by_clause.setdefault(f[1], []).append(f)
@@ -221,7 +222,10 @@ def do_check(K, prop, seed, tier, args, repo):
             small, nexec = K.shrink(case, clause, budget_s=shrink_budget)
             out = K.execute(small)
             if clause not in [v[0] for v in out.violations]:
-                raise K.HarnessError(f"run {idx} failed with {clause} in the batch but not when re-executed")
+                # state left behind by an earlier run of the same worker process (a change to the library may introduce a
+                # process-wide leak): not a confirmed violation; an error of the harness unless another failure is confirmed
+                harness_problems.append(f"run {idx} failed with {clause} in the batch but not when re-executed")
+                continue
             k = K.match_known(small, clause, known)
             if k is not None:
                 known_hits[k['id']] = k
@@ -232,7 +236,8 @@ def do_check(K, prop, seed, tier, args, repo):
             r = subprocess.run([sys.executable, os.path.abspath(__file__), prop, '--replay', path],
                                capture_output=True, text=True, timeout=300, env=dict(os.environ, PYTHONHASHSEED='7'))
             if f"VIOLATION property={prop} replay={path}" not in r.stdout:
-                raise K.HarnessError(f"violation {clause} of run {idx} does not replay from {path} in a fresh interpreter:\n{r.stdout[-1500:]}{r.stderr[-1500:]}")
+                harness_problems.append(f"violation {clause} of run {idx} does not replay from {path} in a fresh interpreter:\n{r.stdout[-1500:]}{r.stderr[-1500:]}")
+                continue
             violations.append((clause, path, str(detail)[:200]))
             reported_new = True
 
@@ -247,7 +252,13 @@ def do_check(K, prop, seed, tier, args, repo):
     other = second_interpreter_digests(prop, seed, tier, det_idx, 20261003)
     if mine != other:
         bad = [i for i in mine if mine[i] != other.get(i)]
-        raise K.HarnessError(f"determinism spot-check failed for runs {bad[:8]}")
+        harness_problems.append(f"determinism spot-check failed for runs {bad[:8]}")
+    if harness_problems and not violations:
+        # (a violation that replays from its file in a fresh interpreter stands on its own; without one, runs that do not
+        # repeat are an error of the harness - or a process-wide leak in the library under test - and nothing is claimed)
+        raise K.HarnessError(harness_problems[0])
+    for hp in harness_problems:
+        lines.append("NOTE: " + hp.split('\n')[0] + " (runs of one worker process influence each other; the violation below replays on its own)")
 
     wall = time.time() - t0
     # 5. evidence
